@@ -1124,6 +1124,10 @@ class MarkovChainMonteCarloMethod:
                         adapters=stage.adapters,
                         **common_kwargs,
                     )
+                    if isinstance(exception, KeyboardInterrupt):
+                        # Return before finalizing adapters as adapter states (and chain
+                        # states) may only be available for a subset of the chains
+                        return MCMCSampleChainsOutputs(chain_states, traces, stats)
                     if len(adapter_states) > 0:
                         _finalize_adapters(
                             adapter_states,
@@ -1134,8 +1138,6 @@ class MarkovChainMonteCarloMethod:
                         )
                     if stage.trace_funcs is not None or stage.record_stats:
                         sampling_index_offset += stage.n_iter
-                    if isinstance(exception, KeyboardInterrupt):
-                        return MCMCSampleChainsOutputs(chain_states, traces, stats)
         return MCMCSampleChainsOutputs(chain_states, traces, stats)
 
 
